@@ -7,6 +7,24 @@ A_INT = "Python ints are mathematical integers (exact); strings are sequences of
 A_TERM = "partial correctness only: termination of recursion (to_text over nested directives) is not proved (A5)"
 A_TYPES = "objects' fields and parameters hold values of their annotated types (type invariants are assumed on entry and on every heap read)"
 
+T_ANTLR = ("T-ANTLR: the ANTLR runtime and the generated CMakeLexer/CMakeParser behave as the ghost parse-tree "
+           "interface of contracts/c_external.py says (children in source order, getText() = token text, quoted "
+           "arguments start and end with a double quote, unquoted ones contain none; the walker calls enter* callbacks "
+           "in source order)")
+T_STRLIB = "T-STRLIB: models of str.split/join/lstrip/rstrip/strip/replace/lower, re.sub as an uninterpreted function (A2, A3)"
+A_OWN = ("ownership discipline: the lists held in the fields named in OWNED_LIST_FIELDS are not shared between those "
+         "fields (each is created by a `[]` in a constructor and never re-assigned: constructor postconditions + frames)")
+A_SPEC_WF = "recursive spec functions are well-founded (they are also executed natively on every bounded case)"
+BOUNDED_RULE = ("bounded (labelled, never counted as proved): the same contracts evaluated natively on the real functions "
+                "while the real pipeline documents the drivers' inputs; distinct = (input, settings) pairs; "
+                "evaluations = contract evaluations + cases")
+
+_AGG_ASSUME = [A_INT, A_TYPES, A_OWN, A_SPEC_WF, A_TERM,
+               "well-formedness W1 (balanced function/macro and class blocks) is a precondition of enterCommand_invocation "
+               "for the block-closing commands (pop of an empty stack raises IndexError otherwise)",
+               "the composition of the per-callback contracts over a whole file (induction over the walker's event "
+               "sequence) is argued in DESIGN.md, not machine-checked"]
+
 PROPS = {
     "C20": {
         "level": "proof",
@@ -19,6 +37,66 @@ PROPS = {
                         "SimpleTable, DocTest and section() are outside the property and have only their __str__ under contract",
                         "header character list non-empty and section level within it (precondition; IndexError otherwise)"],
         "explanation": "",
+    },
+    "C01": {
+        "level": "proof", "drivers": ["drv_pipeline"],
+        "trusted_base": [T_PY, T_SMT, T_ANTLR, T_STRLIB],
+        "assumptions": _AGG_ASSUME + [
+            "the Docstring token text is the exact source slice of the doccomment (T-ANTLR)",
+            "L3 (the paragraph's lines are the doc lines, each prefixed): split/join inverse is assumed (T-STRLIB), "
+            "Paragraph.build_text_string is proved against join(map(prefix+, split(text)))",
+            "code points above U+2FFFF are outside z3's character range (A1)"],
+        "bounded_rule": BOUNDED_RULE,
+    },
+    "C02": {
+        "level": "proof", "drivers": ["drv_pipeline"],
+        "trusted_base": [T_PY, T_SMT, T_ANTLR, T_STRLIB],
+        "assumptions": _AGG_ASSUME + [
+            "argument text of a parenthesised group is ANTLR's getText() (token texts concatenated: inner white space is "
+            "not preserved) - 'as written' is read modulo that",
+            "entries reaching process_docs satisfy entry_ok (established by the processors' postconditions)"],
+        "bounded_rule": BOUNDED_RULE,
+    },
+    "C03": {
+        "level": "proof", "drivers": ["drv_pipeline"],
+        "trusted_base": [T_PY, T_SMT, T_ANTLR, T_STRLIB],
+        "assumptions": _AGG_ASSUME + [
+            "'the body of that very definition outside any nested definition' is the definition on top of the "
+            "open-definition stack (standard meaning for a W1-balanced command sequence)",
+            "re.sub(pattern, '', s) is an uninterpreted function of (pattern, s): the result holds for every strip pattern"],
+        "bounded_rule": BOUNDED_RULE,
+    },
+    "C08": {
+        "level": "proof", "drivers": ["drv_pipeline"],
+        "trusted_base": [T_PY, T_SMT, T_ANTLR],
+        "assumptions": _AGG_ASSUME + [
+            "the ten include_undocumented_* flags are symbolic booleans in every obligation (all 2^10 combinations at once)",
+            "the two-run statement (same projection under two settings) follows from the case table being a function of "
+            "(command, consumed, flag of that kind) - argued in DESIGN.md"],
+        "bounded_rule": BOUNDED_RULE,
+    },
+    "C09": {
+        "level": "proof", "drivers": ["drv_pipeline"],
+        "trusted_base": [T_PY, T_SMT, T_ANTLR, T_STRLIB],
+        "assumptions": _AGG_ASSUME + [
+            "domain W3: a member/constructor declaration is directly followed by its implementing definition",
+            "ClassDocumentation.process is proved to place each member's directive in order under its label; the content "
+            "of each member directive is MethodDocumentation.process's own contract"],
+        "bounded_rule": BOUNDED_RULE,
+    },
+    "C10": {
+        "level": "proof", "drivers": ["drv_pipeline"],
+        "trusted_base": [T_PY, T_SMT, T_ANTLR, T_STRLIB],
+        "assumptions": _AGG_ASSUME + ["token shapes wf_cmd (T-ANTLR) are the precondition of process_set"],
+        "bounded_rule": BOUNDED_RULE,
+    },
+    "C11": {
+        "level": "proof", "drivers": ["drv_pipeline"],
+        "trusted_base": [T_PY, T_SMT, T_ANTLR, T_STRLIB],
+        "assumptions": _AGG_ASSUME + [
+            "domain W2: the exact keyword NAME occurs once and is followed by the name (lemma name_unique ties the "
+            "general postcondition 'argument after the last NAME' to the statement)"],
+        "bounded_rule": BOUNDED_RULE,
     },
 }
 
@@ -37,6 +115,18 @@ MANIFEST_TEXT = {
         "technique": "contract-based deductive verification (own VC generator over the real AST + z3/cvc5), run-time contract evaluation as bounded fallback",
     },
 }
+
+TECH = "contract-based deductive verification (own VC generator over the real AST + z3/cvc5), run-time contract evaluation as bounded fallback"
+_NOTE = "trusted: the engine's Python-subset semantics (validated, not proved), SMT solvers, the ANTLR parse-tree interface, string-library models; assumed: type annotations respected, list ownership discipline, partial correctness; the composition over a whole file is argued on paper; the bounded run-time contract evaluation is a labelled stand-in/fallback and never counted as proof"
+MANIFEST_TEXT.update({
+    "C01": {"text": "clean_doc_lines is proved equal to a spec (block indentation from the closing line, leader and one space removed, closing delimiter stripped from the last line) for all line lists; seven lemmas prove what that spec yields on every line shape of the canonical form for EVERY text t; enterDocumented_command/_module are proved to hand the processor exactly that text; every processor stores it unchanged; every renderer emits it as one paragraph of the entry's own directive; Paragraph prefixes every line. Proof because the property quantifies over all texts and all line counts.", "design_ref": "DESIGN.md 4 C01", "note": _NOTE, "technique": TECH},
+    "C02": {"text": "The aggregator's four callbacks and thirteen processors are proved against a case table written from the property statement (one entry of the right kind per documentable command, nothing for every other command, the claimed definition and dangling doccomments produce nothing); process_docs is proved to render every entry exactly once in list order as one top-level directive of its kind after the module directive. Obligations hold for every aggregator state, every command and all settings.", "design_ref": "DESIGN.md 4 C02", "note": _NOTE, "technique": TECH},
+    "C03": {"text": "process_function/_macro: name = first argument, parameters = remaining arguments after re.sub (uninterpreted: all patterns), never applied to the name; definition stack push/pop and top-of-stack marking by cmake_parse_arguments proved in the case table of enterCommand_invocation; the renderers are proved to show name(params) with '**kwargs' exactly once and last iff flagged.", "design_ref": "DESIGN.md 4 C03", "note": _NOTE, "technique": TECH},
+    "C08": {"text": "The include_undocumented_* flags are symbolic in every obligation of enterCommand_invocation, so the case table (flag consulted only for commands not reached through a doccomment; off => no entry, placeholder frames keep the stacks balanced) is proved for all 2^10 settings at once. The obligation for a DOCUMENTED cpp_class with the class flag off is refuted on the current tree: known finding F5.", "design_ref": "DESIGN.md 4 C08", "note": _NOTE + "; open known finding F5 (known_findings.json)", "technique": TECH},
+    "C09": {"text": "Class stack push/pop, registration in the innermost enclosing class, attachment of members/constructors/attributes to the class on top of the stack and to no other (conditional frames), parameter names from the claiming definition after the member strip pattern, macro flag; renderers: class directive with bases, labelled groups in source order, member signature, position-wise :param:/:type: fields, attribute default option.", "design_ref": "DESIGN.md 4 C09", "note": _NOTE, "technique": TECH},
+    "C10": {"text": "process_set / process_option postconditions (type by value count, default as written, quotes removed from a single quoted value, list joined by single spaces, option help/default/bool) and the two renderers (data directive, fields, option note, OFF when omitted) for all argument lists.", "design_ref": "DESIGN.md 4 C10", "note": _NOTE, "technique": TECH},
+    "C11": {"text": "The three test processors are proved against recursive specs (argument after the last NAME, EXPECTFAIL iff present, add_test signature = all arguments except the NAME keyword and the name BY POSITION) with loop invariants; lemmas tie these to the statement on its domain; renderers proved to show name, EXPECTFAIL and the matching warning.", "design_ref": "DESIGN.md 4 C11", "note": _NOTE, "technique": TECH},
+})
 
 NOT_APPLICABLE = [
     {"property_id": "C05", "reason": "decided by the generated ANTLR ATN tables under the third-party ANTLR interpreter vs. CMake's own lexer as oracle; no pre/postcondition on a CMinx Python function expresses 'for all strings of the cmake-language grammar' (DESIGN.md 4 C05); the Python-side obligations it contains (UTF-8 decoding, no exception from the aggregator) are decided under C01/C02"},
